@@ -303,6 +303,48 @@ pub fn main(args: &[String]) {
                 diffs += d;
             }
         }
+        // malformed rows whose damaged field is long and not ASCII (the error path echoes / truncates the field): every
+        // length 1..120 of four fillers behind a well-formed beginning and alone, in the code point and in the property column
+        for filler in ["x", "\u{e9}", "\u{65e5}", "\u{1f600}"] {
+            let mut text = String::from("Codepoint,Property,Description\n");
+            let mut exp: Vec<Value> = Vec::new();
+            for k in 1..=120usize {
+                let junk = filler.repeat(k);
+                for row in [format!("00E0-00FF{},PVALID,SOME DESCRIPTION", junk), format!("0020,ID_DIS or FREE_PVAL{},SPACE", junk),
+                            format!("{}-{},PVALID,x", junk, junk), format!("0041,{} or {},x", junk, junk)] {
+                    text.push_str(&row);
+                    text.push('\n');
+                    exp.push(json!({ "err": exp.len() + 2 }));
+                    // the single-row entry point as well
+                    let r = std::panic::catch_unwind(|| PrecisDerivedProperty::from_str(&row));
+                    if !matches!(r, Ok(Err(_))) {
+                        diffs += 1;
+                        if first.is_null() {
+                            first = json!({"from_str": row.chars().take(120).collect::<String>(), "junk_chars": k, "actual": if r.is_err() { "panic" } else { "accepted" }});
+                        }
+                    }
+                }
+            }
+            std::fs::write(&path, text.as_bytes()).unwrap_or_else(|e| tool_error(&e.to_string()));
+            let actual = read_file(&path);
+            files += 1;
+            nrows += exp.len() as u64;
+            let items = actual.as_array().cloned().unwrap_or_default();
+            for (i, e) in exp.iter().enumerate() {
+                if items.get(i) != Some(e) {
+                    diffs += 1;
+                    if first.is_null() {
+                        first = json!({"file": files, "line": i + 2, "expected": e, "actual": items.get(i), "whole": if items.is_empty() { actual.clone() } else { Value::Null }});
+                    }
+                }
+            }
+            if items.len() != exp.len() {
+                diffs += 1;
+                if first.is_null() {
+                    first = json!({"file": files, "expected_items": exp.len(), "actual_items": items.len(), "whole": if items.is_empty() { actual.clone() } else { Value::Null }});
+                }
+            }
+        }
         std::fs::remove_file(&path).ok();
         synth = json!({"checked": true, "files": files, "rows": nrows, "diffs": diffs, "first": first});
     }
